@@ -46,6 +46,8 @@ unsigned long vp_addr(void const* p) { return X_vp_addr((uint8_t*)p); }
 void* vp_buf(unsigned long n) { return X_vp_buf(n); }
 void vp_buf_free(void* p) { X_vp_buf_free((uint8_t*)p); }
 int vp_new_live(void) { return 0; }
+void X_vp_fill_n(uint8_t*, uint64_t);
+void vp_fill_n(void* p, unsigned long n) { X_vp_fill_n((uint8_t*)p, n); }
 }
 int main(int argc, char** argv) {
     if (argc < 3) { fprintf(stderr, "usage: native <entry> <inputs-file>\n"); return 2; }
